@@ -1002,7 +1002,7 @@ pub fn c09(c: &mut Ctx) {
         let _ = bad;
         c.extra.insert("exhaustive_32_bit_from_and_roundtrip".into(), json!(true));
     }
-    let n = c.budget(8_000_000, 800_000_000) / 16;
+    let n = c.budget(8_000_000, 300_000_000) / 16;
     for i in 0..n {
         let v = wide_values(&mut c.rng, 128);
         c09_from::<u128>(c, v);
